@@ -78,6 +78,7 @@ def make_ops(thorough):
     # The canonical state does not change; the explorer's self-loop lookahead runs and judges every
     # registration once more after it.
     ops.append(("use",))
+    ops.append(("clear",))  # UnitDatabase.Clear(): back to an empty registry (nothing of the old one may survive)
     return ops
 
 
@@ -228,7 +229,7 @@ def use_everything(db):
             except Exception:
                 units = []
             for u in units:
-                for f in (lambda: Scalar(1.0, u, c), lambda: ObtainQuantity(u, c), lambda: ObtainQuantity(u), lambda: Scalar(1.0, u, c).GetValue(units[0]), lambda: db.CheckCategoryUnit(c, u), lambda: Scalar(c, unit=u)):
+                for f in (lambda: db.FindUnitCase(c, u), lambda: db.FindUnitCase(c, u.upper()), lambda: db.FindUnitCase(c, u.lower()), lambda: Scalar(1.0, u, c), lambda: ObtainQuantity(u, c), lambda: ObtainQuantity(u), lambda: Scalar(1.0, u, c).GetValue(units[0]), lambda: db.CheckCategoryUnit(c, u), lambda: Scalar(c, unit=u)):
                     try:
                         f()
                     except Exception:
@@ -244,6 +245,8 @@ def use_everything(db):
 def fmt(op):
     if op[0] == "use":
         return "<use every registered category and unit>"
+    if op[0] == "clear":
+        return "Clear()"
     if op[0] == "base":
         return "AddUnitBase(%r, %r)" % (op[1], op[2])
     if op[0] == "unit":
@@ -261,6 +264,17 @@ def apply(s, op, part, hist):
     db, model = s.db, s.model
     pre = fingerprint(db) if part is not None else None
     exc = None
+    if op[0] == "clear":
+        db.Clear()
+        s.model.__init__()
+        if part is not None:
+            part.count("evaluations")
+            post = fingerprint(db)
+            leftovers = [n for n in ("quantity_types", "unit_to_unit_info", "categories_to_quantity_types") if getattr(db, n, None)]
+            if post[0] or post[1] or post[2] or leftovers or list(db.GetQuantityTypes()) or list(db.IterCategories()):
+                s.broken = True
+                part.violation("C14:%s :: Clear() left something behind" % " ; ".join(fmt(o) for o in [OPS[_T["t"]][i] for i in hist] + [op]), {"after": post, "leftovers": leftovers})
+        return True
     if op[0] == "use":
         use_everything(db)
         if part is not None:
@@ -402,11 +416,15 @@ def _shipped(world):
     return part
 
 
+def _is_clear(op):
+    return op[0] == "clear"
+
+
 def run(ctx):
     _T["t"] = ctx.thorough
     ops = OPS[ctx.thorough]
     depth = 6 if ctx.thorough else 5
-    res = explorer.bfs(ctx, make, apply, ops, canon, max_depth=depth, lookahead=4)
+    res = explorer.bfs(ctx, make, apply, ops, canon, max_depth=depth, lookahead=4, distrust=_is_clear)
     run_sharded(ctx, _shipped, ["posc", "posc_nocat", "simple"])
     ctx.level = "model_checking"
     ctx.states = res["states"]
